@@ -424,6 +424,14 @@ impl Dir {
             }
             Act::RepackAll(no, objs) => {
                 if self.git {
+                    // `repack -a -d -k` leaves unreachable loose objects alone when there is nothing else to do: pack them
+                    // first (the pack becomes redundant and is removed by the repack, or is the result itself)
+                    if !before.loose.is_empty() {
+                        let ids: String = before.loose.iter().map(|o| format!("{}\n", obj_id(*o))).collect();
+                        let prefix = self.packdir().join("pack");
+                        self.run_git(&["pack-objects", "-q", &prefix.to_string_lossy()], ids.as_bytes());
+                        self.run_git(&["prune-packed", "-q"], b"");
+                    }
                     let names_before = self.pack_names_on_disk();
                     self.run_git(&["repack", "-a", "-d", "-k", "-q"], b"");
                     let after = self.pack_names_on_disk();
